@@ -275,7 +275,16 @@ func (w *World) loadSpecFile(path, pkg string) error {
 			if pkg != "" {
 				key = pkg + "." + key
 			}
-			cur = &FuncSpec{Key: key, Pkg: pkg, Loops: map[int]*LoopSpec{}, File: r.file, Line: r.line, Assumed: fileAssumed, Props: fileProps}
+			var pnames []string
+			if kw != "func" {
+				if i := strings.Index(key, "("); i >= 0 && strings.HasSuffix(key, ")") {
+					for _, n := range strings.Split(key[i+1:len(key)-1], ",") {
+						pnames = append(pnames, strings.TrimSpace(n))
+					}
+					key = key[:i]
+				}
+			}
+			cur = &FuncSpec{Key: key, Pkg: pkg, Loops: map[int]*LoopSpec{}, File: r.file, Line: r.line, Assumed: fileAssumed, Props: fileProps, Params: pnames}
 			switch kw {
 			case "iface":
 				cur.Assumed = true
